@@ -168,6 +168,10 @@ def extra_stage(tier, seed, work):
                 violation('managed-inactive-while-running', cfg,
                           'ManagedThread::isActive() returned false %s times (of %s samples) while the thread '
                           'function was observed running' % (kv['inactive_while_running'], kv['samples_while_running']), line)
+            if int(kv.get('dtor_before_finish', 0)):
+                violation('managed-destructor-does-not-join', cfg,
+                          'the destructor of a ManagedThread returned in %s rounds before the thread function had '
+                          'finished (the thread goes on and writes into the destroyed object)' % kv['dtor_before_finish'], line)
             if int(kv['active_after_join']):
                 violation('managed-active-after-join', cfg,
                           'ManagedThread::isActive() returned true after join() in %s rounds' % kv['active_after_join'], line)
